@@ -85,6 +85,16 @@ CHECKS = {
          "An expectation over a distribution cannot be model-checked. Exact part: for every weak order of n <= 5 (6 thorough) PSMs, every set of correct targets and alpha in {1/2..1/10}, the FDP averaged over all labellings of the null PSMs is <= alpha with the +1 and TLC finds the counterexample without it. Binding: held-out outputs of the real brew() do not change when the label of a held-out PSM is flipped, for a memorising estimator (FlipTrace), plus the C01/C02/C03 checks. Exploration: replicates of simulated mixtures (n = 1500-2500, pi0 0.5/0.8, folds 2..5, learners memoriser / fully grown tree / SVM / logistic regression) at PSM and peptide level; TLC rejects only mean FDP > 1.5 alpha + 4 SE and the same exploration with deliberately leaky training sets must be rejected (else machinery failure).",
          "Trusted: TLC, simulated ground truth, integer per-mille arithmetic; the expectation is explored, not proved, for the real code.",
          "DESIGN.md §3 C04"),
+ "C10": ("model_checking",
+         "TLC model checking of PinParse.tla (column classification, identifier-preserving column chunking, NaN scan tasks in a thread pool, label conversion vs the declarative dataset) + TLC trace validation (PinParseTrace.tla) of datasets returned by the real read_pin on every TLC-enumerated schema",
+         "The parser model is checked for features 0..45 (60 thorough) x identifier widths 2..5 x column chunk sizes x workers and every task interleaving on small instances, with the pre-fix chunking (AsIs_Remainder1Only) and four seeded faults rejected; TLC enumerates the schemas (feature count, optional columns, orders, casings, label encodings, NaN placement, chunk sizes), the driver renders text and Parquet files and the dataset returned by read_pin is accepted by TLC iff it equals the declarative result (features, spectrum key, rows in order, targets, errors).",
+         "Trusted: TLC, file rendering. A column literally named 'charge' may be feature or metadata; DefaultDirection / ragged protein lists are C19's domain.",
+         "DESIGN.md §3 C10"),
+ "C15": ("model_checking",
+         "TLC model checking of Picked.tla (strip -> map -> pair -> best peptide per pair vs one entry per pair with a unique peptide) + TLC trace validation (PickedTrace.tla) of rows returned by the real picked_protein and written by assign_confidence(proteins=...) for every TLC-enumerated structure",
+         "Every small structure (<= 3 target/decoy pairs of proteins or groups, <= 4 peptides, unique/shared, ranks with ties; thorough <= 4 pairs, 5 rows) is model-checked, rendered as FASTA + peptide table under several modification / flank notations, and run through picked_protein directly and through assign_confidence end to end; TLC accepts iff there is exactly one entry per pair with a retained unique peptide, won by the owner of a best unique peptide, shared peptides never contribute, and q-values equal the C01 formula over the entries.",
+         "Trusted: TLC, FASTA rendering of C16. Known findings F-15b (pair key from the first member name), F-15c (target-only FASTA), F-15d (empty protein level end to end).",
+         "DESIGN.md §3 C15"),
 }
 PENDING = {}   # id -> reason (not_applicable)
 
